@@ -7,6 +7,7 @@ CONSTANTS
   XRC = {1, 2, 5}
   XK = {10, 11, 12, 13, 14, 15, 16, 17}
   DSet = {0, 1, 2, 3, 4, 5, 6, 7, 8, 9, 10, 11, 12, 13, 14, 15, 16, 17}
+  BSet = {}
   SliceSet = {1, 2, 3, 4}
   SortCols = {1, 2, 3, 4}
   ESet = {0, 1, 2, 3, 4, 5, 6, 7, 9, 12, 17}
